@@ -1083,8 +1083,10 @@ class SchemaBuilder:
                 t = self.new_atomic(name)
             elif x < 0.68 and atoms:
                 t = self.new_derived(name, r.choice(atoms)) or self.new_atomic(name)
-            elif x < 0.84:
+            elif x < 0.84 and self.pool.allow_lists:
                 t = self.new_list(name)
+            elif x < 0.84:
+                t = self.new_atomic(name)
             else:
                 t = self.new_union(name)
             self.simple.append(t)
@@ -1388,7 +1390,7 @@ class SchemaBuilder:
             part = copy(parts[0]) if len(parts) == 1 else PGroup('sequence', [copy(p) for p in parts])
         uses = []
         for u in base.eff_uses():
-            if u.use == 'optional' and u.fixed is None and u.default is None and r.random() < 0.5 and not u.attr.typ.needs_context():
+            if u.use == 'optional' and u.fixed is None and u.default is None and r.random() < 0.5 and not u.attr.typ.needs_context() and (u.ref or isinstance(u.attr.typ, BT) or u.attr.typ.name is not None):
                 x = r.random()
                 nu = AttrUse(u.attr, ref=u.ref)
                 if x < 0.4:
@@ -1937,6 +1939,9 @@ class Pool:
         self.ents = []          # (sysid, bytes) served by the driver's resolver
         self.grammars = []      # (kind, sysid, bytes) handed to loadGrammar in this order
         self.tags = set()
+        # list types and PSVI do not go together on this tree (ListDatatypeValidator::getCanonicalRepresentation crashes on empty values and on
+        # items without canonical form): a pool either has list types or is validated with a PSVI handler
+        self.allow_lists = r.random() < 0.5
 
     # -- namespaces / prefixes used in instances
     def ns_prefixes(self):
@@ -2324,7 +2329,7 @@ def make_pool(r, cover=None, kind=None, n_inst=(20, 60)):
         # SGXMLScanner never fetches the model for cached grammars; a locked pool hands every parser an empty model)
         opts['scanner'] = r.choice(['IG', 'IG', 'SG'])
         opts['lock'] = r.choice([0, 0, 1])
-        opts['psvi'] = 1 if (opts['lock'] == 0 and opts['scanner'] == 'IG') else 0
+        opts['psvi'] = 1 if (opts['lock'] == 0 and opts['scanner'] == 'IG' and not pool.allow_lists) else 0
     else:
         # a pool holding a DTD grammar cannot be locked or asked for its XSModel under UBSan (bad downcast in XSModel::XSModel, see notes)
         opts.update(lock=0, xsmodel=0, psvi=0, scanner='IG' if kind == 'mixed' else r.choice(['IG', 'DG']), schema=1 if kind == 'mixed' else 0)
